@@ -371,6 +371,9 @@ def signature_match(sig, vio):
     if "needs_class" in sig and sig["needs_class"] not in \
             feats.get("classes", []):
         return False
+    if "line_contains" in sig and sig["line_contains"] not in \
+            (obs.get("line") or "").lower():
+        return False
     return True
 
 
